@@ -34,6 +34,13 @@ func (b Bundle) Fragment(mtu int) (bs []Bundle, err error) {
 	}
 	payloadBlockLen = len(payloadBlock.Value.(*PayloadBlock).Data())
 
+	// Fragments of a fragment keep their offsets relative to the original payload and its total length.
+	fragmentOffsetBase, totalDataLength := 0, payloadBlockLen
+	if b.PrimaryBlock.HasFragmentation() {
+		fragmentOffsetBase = int(b.PrimaryBlock.FragmentOffset)
+		totalDataLength = int(b.PrimaryBlock.TotalDataLength)
+	}
+
 	// A Bundle which already fits, including one with an empty payload, is returned as itself.
 	fitBuff := new(bytes.Buffer)
 	if err = b.WriteBundle(fitBuff); err != nil {
@@ -53,7 +60,7 @@ func (b Bundle) Fragment(mtu int) (bs []Bundle, err error) {
 			primaryOverhead  int
 		)
 
-		if fragPrimaryBlock, primaryOverhead, err = fragmentPrimaryBlock(b.PrimaryBlock, i, payloadBlockLen); err != nil {
+		if fragPrimaryBlock, primaryOverhead, err = fragmentPrimaryBlock(b.PrimaryBlock, fragmentOffsetBase+i, totalDataLength); err != nil {
 			return
 		}
 
